@@ -119,6 +119,69 @@ Theorem C18_equal_shapes_equal_walks : forall c1 c2 tr1 tr2,
 Proof. exact equal_shapes_equal_walks. Qed.
 Print Assumptions C18_equal_shapes_equal_walks.
 
+(* --- the first sentence of the property, as far as the model goes ------------------------------- *)
+
+(* The XML front end (wbxml_tree_clb_xml.c) is a client of the same API: start_element = add_xml_elt_with_attrs below
+   `current`, characters = add_text below `current` (one text may arrive in several chunks), end_element = back to the
+   parent.  Run on the empty tree for a document in normal form (no empty text, no two text items in a row) it never
+   gets stuck and builds exactly the document's denotation (names and attributes resolved by the same table functions,
+   chunks joined) and leaves `current` on the root. *)
+Theorem C18_front_end_builds_the_denotation : forall fuel l name kvs kids,
+  xnf (XElt name kvs kids) = true -> (S (S (xsize (XElt name kvs kids))) <= fuel)%nat ->
+  exists t' n new, fe_doc fuel l (XElt name kvs kids) = TOk (t', Some n) /\ root t' = Some n /\
+    Inv t' [] [R n (xelt_data l name kvs) new] /\ [erase (R n (xelt_data l name kvs) new)] = xdenote l (XElt name kvs kids).
+Proof. exact fe_doc_builds. Qed.
+Print Assumptions C18_front_end_builds_the_denotation.
+
+(* ... and below any element of any well-linked forest (the inductive statement) *)
+Theorem C18_front_end_item : forall fuel l det x t F p d cs,
+  is_text d = false -> Inv t det F -> find_l p F = Some (R p d cs) -> xnf x = true ->
+  (is_xtext x = true -> last_not_text cs = true) -> (fuel_of t + xsize x <= fuel)%nat ->
+  exists t' ks, fe_node fuel l t (Some p) x = TOk (t', Some p) /\
+    Inv t' det (replace_l p (R p d (cs ++ ks)) F) /\ map erase ks = xdenote l x /\
+    fresh t' = fresh t + N.of_nat (xsize x) /\ root t' = root t /\
+    (is_xtext x = false -> last_not_text (cs ++ ks) = true).
+Proof. exact fe_node_builds. Qed.
+Print Assumptions C18_front_end_item.
+
+(* Hence: a tree assembled through the API by ANY history (insertions, extractions, re-insertions ...) that ends in
+   the shape the document denotes is traversed by the encoders exactly like the tree parsed from that document.
+   What is NOT proved (corresponded on the C by the harness instead): that the bytes the encoders emit are a function
+   of this traversal (they also read options and tables: C05/C06), that Expat reports the text as such items, and the
+   front end's special paths (SyncML CDATA insertion, base64 of binary-flagged elements, embedded documents). *)
+Theorem C18_api_tree_walks_like_parsed_tree : forall fuel l name kvs kids c tr,
+  xnf (XElt name kvs kids) = true -> (S (S (xsize (XElt name kvs kids))) <= fuel)%nat ->
+  CLinks c -> tree_of c = Some tr -> [erase tr] = xdenote l (XElt name kvs kids) ->
+  exists t' n, fe_doc fuel l (XElt name kvs kids) = TOk (t', Some n) /\
+    enc_walk (S (fuel_of (ts c))) (heap_of (ts c)) (root (ts c)) = enc_walk (S (fuel_of t')) (heap_of t') (root t').
+Proof. exact api_tree_walks_like_parsed_tree. Qed.
+Print Assumptions C18_api_tree_walks_like_parsed_tree.
+
+(* --- add_node with the parent inside the tree; ownership of an offered nested tree ------------------ *)
+
+Theorem C18_add_node_in_tree : forall fuel t det tr D1 tn D2 q,
+  Inv t det (tr :: D1 ++ tn :: D2) -> In (rid tn) det -> In q (ids tr) ->
+  parent_ok (heap_of t) (Some q) = true -> (fuel_of t <= fuel)%nat ->
+  exists t', add_node fuel t (Some q) (rid tn) = TOk t' /\
+             Inv t' (remove_id (rid tn) det) (append_merge_t tr q tn :: D1 ++ D2).
+Proof. exact add_node_in_tree. Qed.
+Print Assumptions C18_add_node_in_tree.
+
+(* wbxml_tree_add_tree refused (second root, or tree == NULL via OpAddNull): the heap is what it was, no node refers
+   to the offered tree, which therefore stays with the caller (who destroys it exactly once); accepted: the new node
+   owns it *)
+Theorem C18_add_tree_refused_keeps_tree : forall fuel t p lang tid t',
+  add_tree fuel t p lang tid = TOk (t', None) -> heap_of t (fresh t) = None ->
+  (forall i, heap_of t' i = heap_of t i) /\
+  (forall i, node_tree (heap_of t) i <> Some tid -> node_tree (heap_of t') i <> Some tid).
+Proof. exact add_tree_refused_keeps_tree. Qed.
+Print Assumptions C18_add_tree_refused_keeps_tree.
+
+Theorem C18_add_tree_accepted_owns_tree : forall fuel t p lang tid t' n,
+  add_tree fuel t p lang tid = TOk (t', Some n) -> node_tree (heap_of t') n = Some tid.
+Proof. exact add_tree_accepted_owns_tree. Qed.
+Print Assumptions C18_add_tree_accepted_owns_tree.
+
 (* --- non-vacuity ------------------------------------------------------------------------------- *)
 
 Definition ex_ops : list op :=
@@ -135,6 +198,15 @@ Example C18_ex_run :
   | _ => False
   end.
 Proof. vm_compute. repeat split; reflexivity. Qed.
+
+Example C18_ex_front_end :
+  let doc := XElt [112] [([107], [118])] [XText [[97]; [98]]; XElt [113] [] [XText [[99]]]; XText [[100]]] in
+  xnf doc = true /\
+  match fe_doc 20 l_plain doc with
+  | TOk (t', Some n) => map erase (abs_forest (mkC t' [])) = xdenote l_plain doc /\ root t' = Some n
+  | _ => False
+  end.
+Proof. vm_compute. auto. Qed.
 
 Example C18_ex_walk :
   match run l_plain init_state ex_ops with
